@@ -57,6 +57,7 @@ NONTRIVIAL_S = {
     "C20": lambda sc, f: bool(sc.get("nested")),
 }
 RULE_S = {
+    "C01": "the scheduler scenarios (attributes, selections, nesting, reconfiguration, directed completion patterns) judged on the value the call returns",
     "C20": "same generator, every scenario described in an inner DAG that the executed DAG calls (attributes, flags, tags, debug nodes, selections on the spliced ids)",
     "C13": "same generator, every scenario with debug nodes (flag on/off at call time, independently on/off while described; plain, nested, executors)",
     "C02": "random DAG scenarios under scripted completion orders; non-trivial: >=2 node starts and >=1 dependency edge",
@@ -1454,7 +1455,7 @@ reg("C07", ["Props.C07_cp_is_own_plus_distinct_descendants", "GM.C07_cp_order_in
             "GM.descAll_nodup", "Props.C07_pinned_counts_paths", "GM.C07_pinned_order_dependent",
             "Props.C07_next_pick_is_determined", "Props.C07_pick_unique",
             "Props.C07_configuration_law", "Props.C07_configuration_refused_iff", "Props.C07_configuration_idempotent",
-            "Props.C07_refused_configuration_changes_nothing", "Props.C07_retry_after_refusal"],
+            "Props.C07_refused_configuration_changes_nothing", "Props.C07_retry_after_refusal", "Props.C07_restricted_table_would_rank_differently"],
     run_G, ASSUME_G)
 reg("C12", ["GM.C12_closure", "Props.C12_selection_is_closure", "GM.selectNodes_none", "GM.mem_descAll_iff", "Props.C12_restriction_keeps_values", "Props.C12_alias_tag_wins", "Props.C12_alias_id", "Props.C12_alias_unknown_refused", "Props.C12_alias_list_is_union", "Props.C12_alias_list_refused_iff", "Props.C12_unselected_nodes_keep_their_value", "Props.C12_targets_only", "Props.C12_empty_lists"], run_G, ASSUME_G)
 
@@ -1761,7 +1762,9 @@ ASSUME_V = [
 
 FLAG_THMS = ["Props.C20_nested_inlining_flags_partial", "Props.C20_flagSafe_decidable", "Props.C20_no_flags_is_flagSafe",
              "Props.C20_flag_witness_default", "Props.C20_flag_witness_indexed", "VM.traceStmts_goodF", "VM.traceStmts_dead"]
-reg("C01", ["Props.C01_core", "Props.C01_flat_partial", "Props.C20_nested_inlining_partial", "VM.traceStmts_good", "Props.C09_bound"] + FLAG_THMS, run_V, ASSUME_V)
+reg("C01", ["Props.C01_core", "Props.C01_flat_partial", "Props.C20_nested_inlining_partial", "VM.traceStmts_good", "Props.C09_bound"] + FLAG_THMS,
+    # ... and the scheduler scenarios (directed completion patterns included) judged on the RETURNED VALUE
+    with_S(run_V), ASSUME_V)
 def run_V_and_nested_tables(pid, tier, seed):
     import slice_k as K
     cov, fs, searcher = run_V(pid, tier, seed)
@@ -2111,7 +2114,7 @@ def with_nested_setup(run):
 
 reg("C11", ["Props.C11_setup_at_most_once", "Props.C11_first_value_kept", "VM.not_entered_of_res", "Props.C11_runs_only_what_selection_needs", "Props.C11_later_executions_see_first_value",
             "Props.C11_kept_executors", "Props.C11_kept_executor_sees_current_setup", "Props.C11_setup_value_independent_of_arguments",
-            "Props.C13_C11_build_rule", "Props.C15_accepted_table_call_after_history_is_fresh", "Props.C11_setup_selection", "Props.C12_targets_only"], with_foreign_cache(with_nested_setup(with_malformed(run_H, ["setup-on-normal", "setup-on-arg"]))), ASSUME_H)
+            "Props.C13_C11_build_rule", "Props.C15_accepted_table_call_after_history_is_fresh", "Props.C11_setup_selection", "Props.C12_targets_only", "Props.C11_established_value_survives_executor_runs"], with_foreign_cache(with_nested_setup(with_malformed(run_H, ["setup-on-normal", "setup-on-arg"]))), ASSUME_H)
 def run_H_and_composeprobe(pid, tier, seed):
     cov, fs, _ = run_H(pid, tier, seed)
     covc, fsc, _ = run_C(pid, tier, seed)
@@ -2214,7 +2217,8 @@ reg("C15", ["Props.C15_no_state_but_setup", "Props.C15_next_call_depends_only_on
     # call reaches every later call through the kept setup value
     with_foreign_cache(with_malformed(run_H_and_composeprobe, ["setup-on-arg"])), ASSUME_H)
 reg("C18", ["Props.C18_restart_same", "Props.C18_restart_runs_only_uncached", "VM.denote_seeded", "Props.C18_cache_roundtrip",
-            "Props.C18_checkpoint_chain", "Props.C18_chain_runs_nothing_twice", "Props.C18_write_back_keeps", "Props.C18_chain_hypothesis_met"], run_H, ASSUME_H)
+            "Props.C18_checkpoint_chain", "Props.C18_chain_runs_nothing_twice", "Props.C18_write_back_keeps", "Props.C18_chain_hypothesis_met",
+            "Props.C18_file_entries_are_not_executed"], run_H, ASSUME_H)
 
 
 # ---------------------------------------------------------------------------------------------
